@@ -341,5 +341,5 @@ package components
 //@   loop 1 step collects-the-received-value-at-the-end-of-its-ports-list[C19]: len(inParams[pName]) >= 1 && inParams[pName][len(inParams[pName]) - 1] == newParam
 //@   loop 2 invariant keys-so-far: forall k string :: $visited[k] ==> exists j int :: 0 <= j && j < len(keys) && keys[j] == k
 //@   loop 3 invariant outs: p == old(p) && p.outParamPorts == old(p.outParamPorts) && p.outParamPorts != nil && (forall k string :: k in outIPs ==> k in p.outParamPorts && p.outParamPorts[k] != nil && wfOutParamPort(p.outParamPorts[k]))
-//@   loop 2 invariant outs-ok: p.outParamPorts == old(p.outParamPorts) && p.outParamPorts != nil && (forall k string :: k in p.outParamPorts ==> p.outParamPorts[k] != nil && wfOutParamPort(p.outParamPorts[k])) && (forall k string :: k in p.inParamPorts ==> k in p.outParamPorts) && (forall k string :: k in inParams ==> k in p.inParamPorts)
+//@   loop 2 invariant outs-ok: p.outParamPorts == old(p.outParamPorts) && p.outParamPorts != nil && (forall k string :: k in inParams ==> k in p.outParamPorts && p.outParamPorts[k] != nil && wfOutParamPort(p.outParamPorts[k]))
 //@   loop 2 invariant drained: p == old(p) && p.inParamPorts == old(p.inParamPorts) && inParams != nil && (forall k string :: k in p.inParamPorts ==> k in inParams && chanRecvN(p.inParamPorts[k].Chan) == chanTotal(p.inParamPorts[k].Chan))
